@@ -534,6 +534,41 @@ func runC13(c *Ctx) {
 		c.R.Bad(rule, core.FuncName(hs), cfg, p.Pos(at.Pos()), "handshake -> "+core.FuncName(loader)+" bounds the hello read by Client.readTimeout (default 3s), not by the handshake timeout: a hello that arrives later but before HandshakeTimeout is rejected")
 	}()
 
+	// ---- C13.hello
+	rule = "C13.hello"
+	c.R.Rule(rule, "the client hello announces the caller's options field by field (database, user, password, protocol version) and ServerInfo returns the decoded server hello as stored")
+	if cn := p.Func(core.PkgCh, "Connect"); cn != nil {
+		checkWiring(c, p, rule, cn, "ClientHello", map[string]string{"Database": "Options.Database", "User": "Options.User", "Password": "Options.Password", "ProtocolVersion": "Options.ProtocolVersion"})
+	}
+	if si := p.Method(core.PkgCh, "Client", "ServerInfo"); si != nil {
+		ok := false
+		for _, b := range si.Blocks {
+			for _, in := range b.Instrs {
+				if r, isRet := in.(*ssa.Return); isRet && len(r.Results) == 1 && core.FieldOrigin(r.Results[0], 0) == "Client.server" {
+					ok = true
+				}
+			}
+		}
+		if ok {
+			c.R.Ok(rule, core.FuncName(si), cfg, p.Pos(si.Pos()), "returns Client.server")
+		} else {
+			c.R.Bad(rule, core.FuncName(si), cfg, p.Pos(si.Pos()), "ServerInfo does not return the decoded server hello")
+		}
+	}
+	// the decode target of the hello is Client.server
+	for _, d := range core.FindCalls(hg, isClientMethod("decode")) {
+		arg := d.Common().Args[1]
+		okT := core.DependsOn(arg, func(v ssa.Value) bool {
+			f, ok := v.(*ssa.FieldAddr)
+			return ok && core.IsNamed(f.X.Type(), core.PkgCh, "Client") && fieldNameOnly(f.X.Type(), f.Field) == "server"
+		}, false)
+		if okT {
+			c.R.Ok(rule, core.CallKey(hg, d)+"/target", cfg, p.Pos(d.Pos()), "server hello decoded into Client.server")
+		} else {
+			c.R.Bad(rule, core.CallKey(hg, d)+"/target", cfg, p.Pos(d.Pos()), "the server hello is not decoded into Client.server")
+		}
+	}
+
 	ruleVersionArgs(c, p, "C13.version")
 	c.R.Assumptions = append(c.R.Assumptions,
 		"decided: min() downgrade, negotiated-revision provenance of every later encode/decode, addendum gating, clean failure, close-on-failure pairing, who bounds the hello read; hello encode/decode symmetry is decided under C17; not decided: the timing itself")
